@@ -299,4 +299,71 @@ theorem lostUpdate_not_raceFree : ¬ RaceFree lostUpdateProg := by
     ⟨.store ("fluid", 0) (addF 1), by simp [lostUpdateProg], rfl, rfl⟩
     ⟨.load ("fluid", 0), by simp [lostUpdateProg], rfl⟩
 
+
+/-! ### the executable race check coincides with `RaceFree` on a finite loop -/
+
+theorem raceFreeB_of_raceFree (prog : Nat → List Ev) (n : Nat) (h : RaceFree prog) : raceFreeB prog n = true := by
+  unfold raceFreeB
+  simp only [List.all_eq_true, List.mem_range, Bool.or_eq_true, beq_iff_eq, Bool.not_eq_true', bne_iff_ne]
+  intro t _ u _
+  by_cases htu : t = u
+  · exact Or.inl htu
+  · right
+    intro e he
+    cases hs : e.isStore with
+    | false => exact Or.inl rfl
+    | true =>
+      right
+      intro e' he' heq
+      exact h t u e.loc htu ⟨e, he, hs, rfl⟩ ⟨e', he', heq⟩
+
+theorem raceFree_of_raceFreeB (prog : Nat → List Ev) (n : Nat) (hn : ∀ t, n ≤ t → prog t = [])
+    (h : raceFreeB prog n = true) : RaceFree prog := by
+  unfold raceFreeB at h
+  simp only [List.all_eq_true, List.mem_range, Bool.or_eq_true, beq_iff_eq, Bool.not_eq_true', bne_iff_ne] at h
+  intro t u l htu hw ht
+  obtain ⟨e, he, hst, hl⟩ := hw
+  obtain ⟨e', he', hl'⟩ := ht
+  have htn : t < n := by
+    rcases Nat.lt_or_ge t n with h1 | h1
+    · exact h1
+    · rw [hn t h1] at he; cases he
+  have hun : u < n := by
+    rcases Nat.lt_or_ge u n with h1 | h1
+    · exact h1
+    · rw [hn u h1] at he'; cases he'
+  rcases h t htn u hun with h1 | h1
+  · exact htu h1
+  · rcases h1 e he with h2 | h2
+    · rw [hst] at h2; cases h2
+    · exact h2 e' he' (by rw [hl', hl])
+
+/-! ### registers: what an iteration computed does not depend on the schedule either -/
+
+theorem raceFree_regs_eq (prog) (hrf : RaceFree prog) (m0 : Mem) (s₁ s₂ : List Nat) (t : Nat)
+    (hpc : (run prog (Cfg.init m0) s₁).pc t = (run prog (Cfg.init m0) s₂).pc t) :
+    (run prog (Cfg.init m0) s₁).regs t = (run prog (Cfg.init m0) s₂).regs t := by
+  have i₁ := inv_run prog hrf m0 s₁ _ (inv_init prog m0)
+  have i₂ := inv_run prog hrf m0 s₂ _ (inv_init prog m0)
+  rw [i₁.regs t, i₂.regs t, hpc]
+
+/-! ### an in-place update through an indirect index is a lost update waiting to happen -/
+
+/-- two iterations executing `arr[0] += 1` -/
+def lostUpdateOn (arr : String) : Nat → List Ev := fun t =>
+  if t < 2 then [.load (arr, 0), .store (arr, 0) (addF 1)] else []
+
+theorem lostUpdateOn_outcomes (arr : String) :
+    (run (lostUpdateOn arr) (Cfg.init fun _ => 0) [0, 0, 1, 1]).mem (arr, 0) = 2 ∧
+    (run (lostUpdateOn arr) (Cfg.init fun _ => 0) [0, 1, 0, 1]).mem (arr, 0) = 1 := by
+  constructor <;>
+    simp [run, step, lostUpdateOn, execEv, upd, Cfg.init, addF]
+
+theorem lostUpdateOn_complete (arr : String) (s : List Nat) (hs : s = [0, 0, 1, 1] ∨ s = [0, 1, 0, 1]) :
+    Complete (lostUpdateOn arr) 2 (run (lostUpdateOn arr) (Cfg.init fun _ => 0) s) := by
+  intro t ht
+  have : t = 0 ∨ t = 1 := by omega
+  rcases hs with rfl | rfl <;> rcases this with rfl | rfl <;>
+    simp [run, step, lostUpdateOn, execEv, upd, Cfg.init]
+
 end SkNet.ParFor
